@@ -297,6 +297,22 @@ def rule_unsupported(ctx, repo, tier):
             ctx.hold("C07.unsupported", w, label, "%d unsupported cell(s) answered by exactly one receipt; supported and key-distribution-only payloads by none" % n_unsup)
 
 
+def rule_keyonly(ctx):
+    from . import c10, c10_rt
+    cv = c10.Conv(ctx)
+    fn = ctx.repo.find_method(cv.cls, "protobytes_is_key_distribution_only")[1]
+    w = where(c10_rt.CONV, "AttributesConverter.protobytes_is_key_distribution_only", getattr(fn, "lineno", None))
+    r = c10_rt.key_distribution_only_question(ctx, cv)
+    if r is None:
+        ctx.undecided("C07.keyonly", w, "key-distribution-only question", "the method or the Message description was not found, or it uses protobuf operations outside the stand-in model")
+        return
+    problems, n = r
+    ctx.check("C07.keyonly", not problems, w, "key-distribution-only question on %d payloads" % n,
+              "; ".join(problems[:3]) + " - a message that carries content next to the key (or no key at all) is then treated as a bare key delivery: nothing is presented above and nobody answers it"
+              if any("True" in p for p in problems) else "; ".join(problems[:3]) + " - a bare key delivery is then presented above as an (empty) message",
+              "True exactly for the payload whose only field is the sender-key distribution")
+
+
 def run(ctx):
     ctx.rule("C07.notif", "exactly one matching ack per notification cell", floor=2)
     ctx.rule("C07.call", "offer -> receipt(call id) else ack", floor=1)
@@ -320,3 +336,8 @@ def run(ctx):
     from . import c10
     ctx.rule("C07.payload", "payload kinds absent on the wire parse to None (C10.top adopted)", floor=4)
     ctx.adopt_from("C10", [(c10.rule_converter, ())], {"C10.top": "C07.payload"})
+    # the other question the receiving side asks about a payload - "is it nothing but a sender-key distribution" (then no
+    # message is presented and none needs an answer from above) - is answered by a stand-in in the routing model; the
+    # code's own answer is executed here on payloads with and without other content
+    ctx.rule("C07.keyonly", "a payload counts as key-distribution-only exactly when the distribution is its only field", floor=1)
+    ctx.guarded("C07.keyonly", rule_keyonly, ctx)
